@@ -1641,6 +1641,14 @@ func (a *adversary) onTimeout(nd *Node, m *hotstuff.TimeoutMsg) bool {
 				qc = c
 			}
 		}
+		if mix(a.w.plan.Inner, 0x68756765, a.ctr)%3 == 0 {
+			// ... or a made-up certificate for the same block whose view is 2^63 plus the view of the newest genuine one:
+			// it cannot verify, but it takes part when the attested certificates are ordered by view
+			if junk := a.ownSig(nd, []byte("huge")); junk != nil {
+				qc = hotstuff.NewQuorumCert(junk, hotstuff.View(1<<63)+qc.View(), qc.BlockHash())
+				a.fired("aggattest-huge-view")
+			}
+		}
 		fm := *m
 		si := fm.SyncInfo
 		si.SetQC(qc)
